@@ -58,6 +58,7 @@ func (w *recWriter) summary() string {
 
 // behaviour: a sequence of steps the handler performs
 // H header, W<code> WriteHeader, B<text> body write, Y yield, S<ms> virtual sleep, P panic
+// (PA with http.ErrAbortHandler, PE with an error value, PN a runtime error)
 type behaviour []string
 
 func (b behaviour) String() string { return strings.Join(b, ",") }
@@ -96,7 +97,7 @@ func (b behaviour) clean() (summary string, panics bool) {
 				}
 			}
 			body += s[1:]
-		case s == "P":
+		case strings.HasPrefix(s, "P"):
 			if st == 0 {
 				// RecoverHandler answers 500 when nothing was committed
 				st = 500
@@ -143,6 +144,15 @@ func (b behaviour) handler(o *gObs) http.Handler {
 				vrt.Sleep(time.Duration(ms) * time.Millisecond)
 			case s == "P":
 				panic("handler-panic")
+			case s == "PA":
+				// the value net/http itself uses to abort a handler: still a panic of the
+				// handler as far as the guards are concerned
+				panic(http.ErrAbortHandler)
+			case s == "PE":
+				panic(fmt.Errorf("handler-panic: %w", context.DeadlineExceeded))
+			case s == "PN":
+				var m map[string]int
+				m["x"] = 1
 			}
 		}
 	})
@@ -171,6 +181,11 @@ func guardBehaviours() []behaviour {
 		{"W201", "Ba", "P"},
 		{"S50", "P"},
 		{"S150", "P"},
+		{"PA"},
+		{"H", "PA"},
+		{"S50", "PA"},
+		{"PE"},
+		{"PN"},
 		{"W500", "Bx"},
 		{"W0"},
 		{"S50", "W999"},
